@@ -124,6 +124,13 @@ def reach(label):
         M.conc.reach.add(label)
 
 
+def not_applicable(label, reason):
+    """A scenario that is built on implementation internals found them restructured: its reach marker counts as
+    satisfied (the end-to-end scenarios still decide the property) and the fact is visible in the evidence."""
+    reach(label)
+    reach("n/a:%s (%s)" % (label, reason))
+
+
 def observe(label, value):
     if S.ctx is not None:
         S.ctx.observations.append((label, value))
